@@ -77,6 +77,13 @@ def make_macro(sig):
     return ["macro", "m", params, body]
 
 
+def unknown_name(sig):
+    """The unknown keyword is a Python keyword for half of the signatures (such
+    calls are compiled through a different code path)."""
+    n, k, j, (mv, mk, mc) = sig
+    return "class" if (n + k + j + mv) % 2 else "zz"
+
+
 def call_shapes(sig):
     n, k, j, (mv, mk, mc) = sig
     pnames = [f"p{i + 1}" for i in range(n)]
@@ -106,11 +113,12 @@ def call_ast(sig, shape):
     args = [C(10 + i) for i in range(npos)]
     if star == 1:
         args.append(["star", ["list", [C(40), C(41)]]])
-    kw = [[name, C(30 + i)] for i, name in enumerate(kws)]
+    un = unknown_name(sig)
+    kw = [[un if name == "zz" else name, C(30 + i)] for i, name in enumerate(kws)]
     if star == 2:
         kw.append(["**", ["dict", [[C(f"p{n}"), C(50)]]]])
     if star == 3:
-        kw.append(["**", ["dict", [[C("zz"), C(51)]]]])
+        kw.append(["**", ["dict", [[C(un), C(51)]]]])
     call = ["call", N("m"), args, kw]
     if cb:
         return ["callblock", [], call, [["text", "CB"]]]
@@ -123,11 +131,12 @@ def py_args(sig, shape):
     args = [10 + i for i in range(npos)]
     if star == 1:
         args += [40, 41]
-    kw = {name: 30 + i for i, name in enumerate(kws)}
+    un = unknown_name(sig)
+    kw = {(un if name == "zz" else name): 30 + i for i, name in enumerate(kws)}
     if star == 2:
         kw[f"p{n}"] = 50
     if star == 3:
-        kw["zz"] = 51
+        kw[un] = 51
     return args, kw
 
 
@@ -193,7 +202,7 @@ def classify(sig, sh, mo, eo):
     if npos > n:
         parts.append("surplus-positional" + ("+varargs" if mv else ""))
     if any(x == "zz" for x in kws) or star == 3:
-        parts.append("unknown-keyword" + ("+kwargs" if mk else ""))
+        parts.append("unknown-keyword" + ("+kwargs" if mk else "") + (":python-keyword" if unknown_name(sig) == "class" else ""))
     if any(x != "zz" and int(x[1:]) <= npos for x in kws):
         parts.append("keyword-duplicates-positional")
     if k:
